@@ -14,7 +14,7 @@ CHECKS = {
 }
 CHECKS["C01"] = ("exploration",
    "property-based testing (proptest) of the real daemon against a strict mock ACME CA; oracle = independent normalisation (own punycode, RFC 5952) + own DER walker over the CSR + key-file snapshot",
-   "Generated certificate configurations are run through the real acmed binary until the first post-operation hook; the mock CA records the newOrder and finalize bodies, which are judged against identifiers normalised independently and against the key file snapshotted by the hook recorder.",
+   "Generated certificate configurations (with a key file that is absent, usable, garbage or of another type; a CA whose order object spells the identifiers as requested, in upper case or in reverse order) are run through the real acmed binary until the first post-operation hook; the mock CA records the newOrder and finalize bodies, which are judged against identifiers normalised independently and against the key file snapshotted by the hook recorder.",
    "One issuance per case against a fault-free CA; cargo feature only zeroes poll/retry waits. Trusts OpenSSL for CSR signature verification.",
    "DESIGN.md 4 C01")
 CHECKS["C19"] = ("exploration",
@@ -24,12 +24,12 @@ CHECKS["C19"] = ("exploration",
    "DESIGN.md 4 C19")
 CHECKS["C02"] = ("exploration",
    "property-based testing (proptest): issuance histories through the real daemon compared with the bytes the mock CA served; stateful write histories through the real storage functions (in-crate probe) compared with the bytes written; bincode mirror must consume the whole account file",
-   "Histories in which a shorter content follows a longer one (chains, keys of different types, account records) are generated on purpose and counted; after every write/issuance the file must equal exactly the new content.",
+   "Histories in which a shorter content follows a longer one (chains, keys of different types, account records) are generated on purpose and counted; after every write/issuance the file must equal exactly the new content; one write history in five runs under a file-size limit, where a write that does not fit must be reported as failed instead of leaving a cut file behind a success.",
    "Account file bytes are not predictable in black-box runs (random keys, timestamps): residue there is detected structurally with a mirror of the record layout.",
    "DESIGN.md 4 C02")
 CHECKS["C03"] = ("fault_enumeration",
    "fault injection by a scripted mock CA: exhaustive (request position x fault kind) enumeration plus proptest-generated multi-fault plans; invariant oracle over the installed files at every post-operation hook",
-   "Every position of an issuance crossed with every fault kind is injected singly (exhaustive) and in random combinations over several attempts, with and without a previously installed pair and kp_reuse; after every attempt the certificate file must parse and match the key file, and an attempt without a served certificate must leave an installed pair untouched.",
+   "Every position of an issuance crossed with every fault kind is injected singly (exhaustive) and in random combinations over several attempts, with and without a previously installed pair and kp_reuse; after every attempt the certificate file must parse and match the key file, and an attempt without a served certificate must leave an installed pair untouched; generated histories of 2..4 issuances of one daemon between which the key file is kept, replaced or deleted must end every issuance with a matching pair.",
    "CA/network faults only (hook failures and crashes between the two file writes are outside the property's quantifier).",
    "DESIGN.md 4 C03, appendix B")
 CHECKS["C07"] = ("fault_enumeration",
@@ -39,7 +39,7 @@ CHECKS["C07"] = ("fault_enumeration",
    "DESIGN.md 4 C07")
 CHECKS["C08"] = ("fault_enumeration",
    "fault injection by a scripted mock CA: enumeration of (POST position x ACME error type x run length) and of non-problem error answers; oracle = per-request transmission counts, nonce chaining and payload identity in the CA's log",
-   "Each request position is answered with k consecutive errors of each type; the CA log must show min(k+1,10) consecutive, identical, validly signed transmissions chained by the newest nonce for recoverable types and exactly one for anything else; polling bounded by 20.",
+   "Each request position is answered with k consecutive errors of each type; the CA log must show min(k+1,10) consecutive, identical, validly signed transmissions chained by the newest nonce for recoverable types and exactly one for anything else (status codes outside 2xx/4xx/5xx included), after which the attempt sends nothing more; polling bounded by 20.",
    "Waits are 0 s under the cargo feature (counts and classification are the shipped ones). GET positions: only 'error never taken for success'.",
    "DESIGN.md 4 C08")
 CHECKS["C04"] = ("exploration",
@@ -54,22 +54,22 @@ CHECKS["C05"] = ("exploration",
    "DESIGN.md 4 C05")
 CHECKS["C06"] = ("exploration",
    "property-based testing (proptest): generated (certificate, key, configuration) triples evaluated by the daemon's own scheduling decision in the in-crate probe, bracketed by an interval oracle around the wall clock; metamorphic check of the jitter distribution; black-box timing of real renewals of short-lived certificates",
-   "Certificates from far past to +7900 years (including the 2^31-second edge and +-1 s around now+renew_delay), SAN subsets/supersets/permutations, delays from 0 to thousands of years, missing files; the returned waiting time must lie in the interval the property prescribes.",
+   "Certificates (regular files or reached through symbolic links) from far past to +7900 years (including the 2^31-second edge and +-1 s around now+renew_delay), SAN subsets/supersets/permutations, delays from 0 to thousands of years, missing files; the returned waiting time must lie in the interval the property prescribes.",
    "One-second slack for clock reads; black-box bounds have 1.2 s / 2.5 s slack (notAfter has one-second resolution).",
    "DESIGN.md 4 C06")
 CHECKS["C09"] = ("exploration",
    "property-based testing (proptest) of arrival patterns against the daemon's limiter in the in-crate probe with a sound bracket oracle (return[i+n]-call[i] >= p) and a bounded-liveness oracle; black-box arrival-time invariant over all requests at the mock CA under retry storms",
-   "Limit sets and arrival patterns (bursts, steady, on/off; several certificates contending, badNonce storms, long polls) are generated; the window invariant is checked on the probe's call/return instants (sound) and on the CA's arrival times (250 ms slack).",
+   "Limit sets and arrival patterns (bursts, steady, on/off; several certificates contending; storms of badNonce answers, of unanswered requests and of 503 answers; long polls; a forgotten account registered again; a second daemon life with refused key roll-overs; tight limits of 1..3 requests) are generated; the window invariant is checked on the probe's call/return instants (sound) and on the CA's arrival times (250 ms slack).",
    "Schedules are sampled, not owned; a failing timing case is re-run twice before it counts.",
    "DESIGN.md 4 C09")
 CHECKS["C14"] = ("exploration",
    "property-based testing (proptest) of configuration trees: differential between the daemon's loaded state (MainEventLoop::new dumped by the in-crate probe) and an independent resolver written over the generator's structure",
-   "Include graphs with globs, repeats, cycles and unread files, all 15 global options split over files, three-level settings and injected dangling references / duplicate ids; effective settings and accept/reject decision must equal the resolver's.",
+   "Include graphs with globs, repeats, cycles, unread files and files reached through symbolic links, all 15 global options split over files, three-level settings and injected dangling references / duplicate ids; effective settings and accept/reject decision must equal the resolver's.",
    "Table/array-valued global options are defined in at most one file per tree (their merge semantics are not documented).",
    "DESIGN.md 4 C14")
 CHECKS["C11"] = ("exploration",
    "model-based property testing (proptest): generated histories of configuration edits / restarts / renewals / forgotten accounts over 1..3 mock CAs compared with an account reference model; save/load round trip through the in-crate probe in separate processes; exhaustive truncation points per generated account shape; real daemon started on truncated files",
-   "Histories are interpreted step by step against the real daemon (one run per renewal/restart); the model predicts the registration / roll-over / contact-update requests per endpoint, silence on idle endpoints and the CA's record afterwards. Persistence is checked field by field across processes and every truncation point of generated account files must be refused.",
+   "Histories (edits, restarts, renewals, forgotten accounts, single 503 answers of the CA at newAccount / account update / key-change / newOrder) are interpreted step by step against the real daemon (one run per renewal/restart); the model predicts the registration / roll-over / contact-update requests per endpoint, silence on idle endpoints and the CA's record afterwards. Persistence is checked field by field across processes and every truncation point of generated account files must be refused.",
    "One account; histories of up to 7 steps; keys are compared by type at the CA and by SPKI/private DER in the round trip.",
    "DESIGN.md 4 C11, appendix D")
 CHECKS["C13"] = ("exploration",
@@ -79,7 +79,7 @@ CHECKS["C13"] = ("exploration",
    "DESIGN.md 4 C13")
 CHECKS["C10"] = ("exploration",
    "model-based property testing (proptest): generated hook/group/env configurations run through the real daemon; the hook recorder's trace of the first two attempts must equal the trace predicted by an independent hook-trace model",
-   "Hook lists with nested groups, multi-typed hooks, allow_failure and exit behaviours of every kind, stdin/stdout/stderr templates and five levels of environment tables; order, selection by type, variables, environment precedence, stdin, output files, create/edit bracketing, non-overlap and failure propagation are compared invocation by invocation.",
+   "Hook lists with nested groups, multi-typed hooks, hook names that look like file names of markup formats, allow_failure and exit behaviours of every kind, stdin/stdout/stderr templates and five levels of environment tables; order, selection by type, variables, environment precedence, stdin, output files, create/edit bracketing, non-overlap and failure propagation are compared invocation by invocation.",
    "Attempts are delimited by a recorder post-operation hook placed first in the certificate's list; whether [global].env reaches account hooks is not judged.",
    "DESIGN.md 4 C10, appendix C")
 CHECKS["C12"] = ("exploration",
